@@ -687,7 +687,8 @@ def detours(alpha, uni, weighted, rng, n):
     """insert X, insert Y, remove one of them (directly or through one of its nodes), insert Z, then touch Y or Z:
     the shape that exposes reuse of internal identifiers and stale index entries"""
     adds = [o for o in alpha if o[0] == "add_edge" and o[-1] is None and not isinstance(o[2] if len(o) > 4 else 0, dict)
-            and (len(o) < 5 or not (isinstance(o[2], int) and o[2] < 0))]
+            and (len(o) < 5 or not (isinstance(o[2], int) and o[2] < 0))
+            and ["remove_edge"] + o[1:-2] in alpha]  # only hyperedge spellings that remove_edge is offered too
     rnodes = [o for o in alpha if o[0] == "remove_node"]
     sw = [o for o in alpha if o[0] == "set_weight" and o[-1] == "W"]
     out = []
